@@ -4,7 +4,7 @@ table under `enqueue_state_if_needed` (new state or LALR merge into the state wi
 `enqueue_transition_target(s)` and the main loop.  When the loop ends every state is closed, every
 transition is backed by the items of its two ends, and every symbol right of a dot has its transition.
 -/
-import KikiVerif.Proofs.Closure
+import KikiVerif.Proofs.Cores
 
 set_option linter.unusedSimpArgs false
 set_option linter.unusedVariables false
@@ -118,6 +118,14 @@ structure BInv (c : Ctx) (fm : List FirstSet) (E : Nat → Sym Nat Nat → Prop)
   zero : ∀ y ∈ b.states.getD 0 [], y.dot = 0
   done : ∀ i, i < b.states.length → i ∉ b.queue → ∀ X, (∃ x ∈ b.states.getD i [], symRightOfDot c x = some X) →
     E i X ∨ Done c b.states b.transitions i X
+  /-- no two states have the same core -/
+  distinct : ∀ i j, i < b.states.length → j < b.states.length →
+    SameCores (b.states.getD i []) (b.states.getD j []) → i = j
+  /-- the cores of a transition's target are those generated from the moved cores of its source -/
+  tcore : ∀ t ∈ b.transitions, ∀ q, (∃ y ∈ b.states.getD t.to [], coreOf y = q) ↔
+    CReach c fm (fun p => ∃ x ∈ transitionItems c (b.states.getD t.frm []) t.sym, coreOf x = p) q
+  /-- at most one transition per state and symbol -/
+  func : ∀ t1 ∈ b.transitions, ∀ t2 ∈ b.transitions, t1.frm = t2.frm → t1.sym = t2.sym → t1.to = t2.to
 
 /-! ### `enqueue_state_if_needed` -/
 
@@ -135,6 +143,30 @@ structure StepSpec (c : Ctx) (fm : List FirstSet) (b : Builder) (tgt : State) (b
   queueSub : ∀ i ∈ b.queue, i ∈ b'.queue
   queueLt : ∀ i ∈ b'.queue, i < b'.states.length
   transEq : b'.transitions = b.transitions
+  pick : ∀ k, k < b.states.length → SameCores tgt (b.states.getD k []) → k = j
+  distinct : ∀ i k, i < b'.states.length → k < b'.states.length →
+    SameCores (b'.states.getD i []) (b'.states.getD k []) → i = k
+
+theorem StepSpec.sameCores {c : Ctx} {fm : List FirstSet} {b b' : Builder} {tgt : State} {j : Nat}
+    (sp : StepSpec c fm b tgt b' j) {i : Nat} (hi : i < b.states.length) :
+    SameCores (b'.states.getD i []) (b.states.getD i []) := by
+  intro p
+  constructor
+  · rintro ⟨y, hy, rfl⟩
+    obtain ⟨y0, hy0, e1, e2⟩ := sp.cores i hi y hy
+    exact ⟨y0, hy0, by simp [coreOf, e1, e2]⟩
+  · rintro ⟨y, hy, rfl⟩
+    exact ⟨y, sp.mono i hi y hy, rfl⟩
+
+theorem StepSpec.sameJ {c : Ctx} {fm : List FirstSet} {b b' : Builder} {tgt : State} {j : Nat}
+    (sp : StepSpec c fm b tgt b' j) : SameCores (b'.states.getD j []) tgt := by
+  intro p
+  constructor
+  · rintro ⟨y, hy, rfl⟩
+    obtain ⟨y0, hy0, e1, e2⟩ := sp.coreJ y hy
+    exact ⟨y0, hy0, by simp [coreOf, e1, e2]⟩
+  · rintro ⟨y, hy, rfl⟩
+    exact ⟨y, sp.sub y hy, rfl⟩
 
 theorem good_union {c : Ctx} {fm : List FirstSet} {A B U : State} (hA : Good c fm A) (hB : Good c fm B)
     (hs : Oset.Sorted U) (hm : ∀ y, y ∈ U ↔ y ∈ A ∨ y ∈ B) : Good c fm U := by
@@ -191,7 +223,9 @@ theorem enqueueState_spec {c : Ctx} {fm : List FirstSet} {E : Nat → Sym Nat Na
         good := ?_
         queueSub := ?_
         queueLt := ?_
-        transEq := rfl }
+        transEq := rfl
+        pick := ?_
+        distinct := ?_ }
     · intro y hy
       rw [getD_set_self hi]
       exact (a2 y).mpr (Or.inr hy)
@@ -247,6 +281,27 @@ theorem enqueueState_spec {c : Ctx} {fm : List FirstSet} {E : Nat → Sym Nat Na
         · exact inv.queue k h
         · simp at h; subst h; exact hi
       · exact inv.queue k hk'
+    · intro k hk' hs
+      have h1 : SameCores tgt (b.states.getD i []) := areCoresEqual_iff_same.mp hp
+      exact inv.distinct k i hk' hi (hs.symm.trans h1)
+    · have sc : ∀ k, k < b.states.length → SameCores ((b.states.set i new.raw).getD k []) (b.states.getD k []) := by
+        intro k hk'
+        by_cases e : i = k
+        · subst e
+          rw [getD_set_self hi]
+          intro p
+          constructor
+          · rintro ⟨y, hy, rfl⟩
+            rcases (a2 y).mp hy with h | h
+            · exact ⟨y, h, rfl⟩
+            · obtain ⟨y', hy', e1, e2⟩ := hc1 y h
+              exact ⟨y', hy', by simp [coreOf, e1, e2]⟩
+          · rintro ⟨y, hy, rfl⟩
+            exact ⟨y, (a2 y).mpr (Or.inl hy), rfl⟩
+        · rw [getD_set_ne e]; exact SameCores.refl _
+      intro k1 k2 h1 h2 hs
+      rw [hlen] at h1 h2
+      exact inv.distinct k1 k2 h1 h2 ((sc k1 h1).symm.trans (hs.trans (sc k2 h2)))
   · -- a new state
     rename_i hidx
     simp only
@@ -264,7 +319,9 @@ theorem enqueueState_spec {c : Ctx} {fm : List FirstSet} {E : Nat → Sym Nat Na
         good := ?_
         queueSub := ?_
         queueLt := ?_
-        transEq := rfl }
+        transEq := rfl
+        pick := ?_
+        distinct := ?_ }
     · intro y hy; rw [getD_append_len]; exact hy
     · intro y hy; rw [getD_append_len] at hy; exact ⟨y, hy, rfl, rfl⟩
     · intro k hk' y hy; rw [getD_append_lt hk']; exact hy
@@ -288,6 +345,34 @@ theorem enqueueState_spec {c : Ctx} {fm : List FirstSet} {E : Nat → Sym Nat Na
       rcases List.mem_append.mp hk' with h | h
       · have := inv.queue k h; omega
       · simp at h; omega
+
+    · intro k hk' hs
+      unfold indexOfMergable at hidx
+      have := List.findIdx?_eq_none_iff.mp hidx (b.states.getD k []) (by rw [getD_of_lt hk']; exact List.getElem_mem hk')
+      rw [areCoresEqual_iff_same.mpr hs] at this
+      cases this
+    · have noeq : ∀ k, k < b.states.length → ¬ SameCores tgt (b.states.getD k []) := by
+        intro k hk' hs
+        unfold indexOfMergable at hidx
+        have := List.findIdx?_eq_none_iff.mp hidx (b.states.getD k []) (by rw [getD_of_lt hk']; exact List.getElem_mem hk')
+        rw [areCoresEqual_iff_same.mpr hs] at this
+        cases this
+      intro k1 k2 h1 h2 hs
+      rw [hlen] at h1 h2
+      by_cases e1 : k1 < b.states.length
+      · by_cases e2 : k2 < b.states.length
+        · rw [getD_append_lt e1, getD_append_lt e2] at hs
+          exact inv.distinct k1 k2 e1 e2 hs
+        · have : k2 = b.states.length := by omega
+          subst this
+          rw [getD_append_lt e1, getD_append_len] at hs
+          exact absurd hs.symm (noeq k1 e1)
+      · have : k1 = b.states.length := by omega
+        subst this
+        by_cases e2 : k2 < b.states.length
+        · rw [getD_append_lt e2, getD_append_len] at hs
+          exact absurd hs (noeq k2 e2)
+        · omega
 
 /-! ### `enqueue_transition_target` -/
 
@@ -334,18 +419,38 @@ theorem insertTransition_mem {ts : List Transition} {t u : Transition} :
       · exact this
   · simp
 
+theorem transitionItems_cores {c : Ctx} {A B : State} (X : Sym Nat Nat) (h : SameCores A B) (p : Core) :
+    (∃ x ∈ transitionItems c A X, coreOf x = p) ↔ (∃ x ∈ transitionItems c B X, coreOf x = p) := by
+  have one : ∀ {A B : State}, SameCores A B → (∃ x ∈ transitionItems c A X, coreOf x = p) →
+      (∃ x ∈ transitionItems c B X, coreOf x = p) := by
+    intro A B h
+    rintro ⟨y, hy, rfl⟩
+    obtain ⟨x, hx, hs, rfl⟩ := mem_transitionItems.mp hy
+    obtain ⟨x2, hx2, e⟩ := (h (coreOf x)).mp ⟨x, hx, rfl⟩
+    refine ⟨{ x2 with dot := x2.dot + 1 }, mem_transitionItems.mpr ⟨x2, hx2, ?_, rfl⟩, ?_⟩
+    · rw [symRightOfDot_core e]; exact hs
+    · simp only [coreOf, Prod.mk.injEq] at e ⊢
+      exact ⟨e.1, by rw [e.2]⟩
+  exact ⟨one h, one h.symm⟩
+
+theorem creach_congr {c : Ctx} {fm : List FirstSet} {A B : State} (X : Sym Nat Nat) (h : SameCores A B) (q : Core) :
+    CReach c fm (fun p => ∃ x ∈ transitionItems c A X, coreOf x = p) q ↔
+    CReach c fm (fun p => ∃ x ∈ transitionItems c B X, coreOf x = p) q :=
+  ⟨CReach.mono fun p => (transitionItems_cores X h p).mp, CReach.mono fun p => (transitionItems_cores X h p).mpr⟩
+
 /-- the closure of a non-empty set of moved items is a good state with a kernel item -/
 theorem good_of_closure {c : Ctx} {fm : List FirstSet} {src : State} {X : Sym Nat Nat} {fuel : Nat} {tgt : State}
     (h : closureLoop c fm fuel (transitionItems c src X) Oset.new = some (some tgt))
     (hX : ∃ x ∈ src, symRightOfDot c x = some X) :
     Good c fm tgt ∧ (∃ y ∈ tgt, 1 ≤ y.dot) ∧ (∀ y ∈ transitionItems c src X, y ∈ tgt) ∧
-      (∀ y ∈ tgt, 1 ≤ y.dot → y ∈ transitionItems c src X) := by
-  obtain ⟨h1, h2, h3, _, h5⟩ := closure_spec h
+      (∀ y ∈ tgt, 1 ≤ y.dot → y ∈ transitionItems c src X) ∧
+      (∀ q, (∃ y ∈ tgt, coreOf y = q) ↔ CReach c fm (fun p => ∃ x ∈ transitionItems c src X, coreOf x = p) q) := by
+  obtain ⟨h1, h2, h3, h4, h5, h6⟩ := closure_spec h
   have kernel_dot : ∀ y ∈ transitionItems c src X, 1 ≤ y.dot := by
     intro y hy
     obtain ⟨x, _, _, rfl⟩ := mem_transitionItems.mp hy
     simp
-  refine ⟨⟨h1, h3, ?_⟩, ?_, h2, ?_⟩
+  refine ⟨⟨h1, h3, ?_⟩, ?_, h2, ?_, closure_cores h2 h3 h4 h6⟩
   · intro y hy hd
     rcases h5 y hy with hk | hg
     · have := kernel_dot y hk; omega
@@ -371,7 +476,7 @@ theorem enqueueTarget_spec {c : Ctx} {fm : List FirstSet} {E E' : Nat → Sym Na
   · cases h
   · cases h
   · rename_i tgt hcl
-    obtain ⟨hg, hk, hsubK, hkern⟩ := good_of_closure hcl hX
+    obtain ⟨hg, hk, hsubK, hkern, hcores⟩ := good_of_closure hcl hX
     have sp := enqueueState_spec inv hg hk
     generalize hres : enqueueStateIfNeeded b tgt = res at h sp
     obtain ⟨b1, j⟩ := res
@@ -385,7 +490,10 @@ theorem enqueueTarget_spec {c : Ctx} {fm : List FirstSet} {E E' : Nat → Sym Na
         queue := sp.queueLt
         trans := ?_
         zero := ?_
-        done := ?_ }
+        done := ?_
+        distinct := sp.distinct
+        tcore := ?_
+        func := ?_ }
     · intro t ht
       rcases insertTransition_mem.mp ht with ht | rfl
       · rw [sp.transEq] at ht
@@ -429,6 +537,35 @@ theorem enqueueTarget_spec {c : Ctx} {fm : List FirstSet} {E E' : Nat → Sym Na
           exact absurd (hij ▸ hjq) hq
       · exact absurd (sp.fresh i' (by omega) hi') hq
 
+    · -- cores of the targets
+      intro t ht q
+      rcases insertTransition_mem.mp ht with ht | rfl
+      · rw [sp.transEq] at ht
+        have old := inv.trans t ht
+        rw [sp.sameCores old.to q, inv.tcore t ht q]
+        exact (creach_congr t.sym (sp.sameCores old.frm) q).symm
+      · simp only
+        rw [sp.sameJ q, hcores q]
+        exact (creach_congr X (sp.sameCores hi) q).symm
+    · -- at most one transition per state and symbol
+      have key : ∀ t1 ∈ b.transitions, t1.frm = i → t1.sym = X → t1.to = j := by
+        intro t1 ht1 e1 e2
+        have old := inv.trans t1 ht1
+        apply sp.pick t1.to old.to
+        intro q
+        rw [hcores q, inv.tcore t1 ht1 q, e1, e2]
+      intro t1 ht1 t2 ht2 e1 e2
+      rcases insertTransition_mem.mp ht1 with ht1 | rfl
+      · rcases insertTransition_mem.mp ht2 with ht2 | rfl
+        · rw [sp.transEq] at ht1 ht2
+          exact inv.func t1 ht1 t2 ht2 e1 e2
+        · rw [sp.transEq] at ht1
+          exact key t1 ht1 e1 e2
+      · rcases insertTransition_mem.mp ht2 with ht2 | rfl
+        · rw [sp.transEq] at ht2
+          exact (key t2 ht2 e1.symm e2.symm).symm
+        · rfl
+
 /-! ### `enqueue_transition_targets` -/
 
 theorem enqueueTargets_spec {c : Ctx} {fm : List FirstSet} {E0 : Nat → Sym Nat Nat → Prop} {fuel i : Nat} :
@@ -442,7 +579,7 @@ theorem enqueueTargets_spec {c : Ctx} {fm : List FirstSet} {E0 : Nat → Sym Nat
     intro b b' inv hi _ h
     simp only [enqueueTargets] at h
     cases h
-    refine ⟨inv.nonempty, inv.good, inv.queue, inv.trans, inv.zero, ?_⟩
+    refine ⟨inv.nonempty, inv.good, inv.queue, inv.trans, inv.zero, ?_, inv.distinct, inv.tcore, inv.func⟩
     intro i' hi' hq X' hX'
     rcases inv.done i' hi' hq X' hX' with (h | ⟨_, k, hk, _⟩) | h
     · exact Or.inl h
@@ -529,6 +666,9 @@ theorem buildLoop_spec {c : Ctx} {fm : List FirstSet} (hwf : CtxWF c) {cf : Nat}
             queue := fun k hk => inv.queue k (List.mem_cons_of_mem _ hk)
             trans := inv.trans
             zero := inv.zero
+            distinct := inv.distinct
+            tcore := inv.tcore
+            func := inv.func
             done := by
               intro i' hi' hq X' hX'
               by_cases e : i' = i
@@ -554,7 +694,7 @@ theorem buildLoop_spec {c : Ctx} {fm : List FirstSet} (hwf : CtxWF c) {cf : Nat}
 theorem initial_inv {c : Ctx} {fm : List FirstSet} {fuel : Nat} {start : State}
     (h : closureLoop c fm fuel [startItem c] Oset.new = some (some start)) :
     BInv c fm (fun _ _ => False) ⟨[start], [], [0]⟩ ∧ startItem c ∈ start := by
-  obtain ⟨h1, h2, h3, _, h5⟩ := closure_spec h
+  obtain ⟨h1, h2, h3, _, h5, _⟩ := closure_spec h
   have hz : ∀ y ∈ start, y.dot = 0 := by
     intro y hy
     rcases h5 y hy with hk | ⟨x, _, imp, hi, hyi⟩
@@ -567,7 +707,10 @@ theorem initial_inv {c : Ctx} {fm : List FirstSet} {fuel : Nat} {start : State}
       queue := by intro i hi; simp at hi; subst hi; simp
       trans := by intro t ht; cases ht
       zero := by intro y hy; simp at hy; exact hz y hy
-      done := by intro i hi hq; simp at hi; subst hi; simp at hq }
+      done := by intro i hi hq; simp at hi; subst hi; simp at hq
+      distinct := by intro i j hi hj _; simp at hi hj; omega
+      tcore := by intro t ht; cases ht
+      func := by intro t ht; cases ht }
   intro i hi
   simp at hi; subst hi
   simp only [List.getD_cons_zero]
